@@ -60,6 +60,8 @@ class ObjectiveWiring(Contract):
         # an objective declared without a weight counts once (declared default)
         out.append(dict(nobj=2, dir="min", optimizer="incremental", prio="pareto", default_w2=True))
         out.append(dict(nobj=2, dir="max", optimizer="optimize", prio="weight", default_w2=True))
+        out.append(dict(nobj=2, dir="max", optimizer="incremental", prio="pareto", default_w2=True))
+        out.append(dict(nobj=2, dir="min", optimizer="optimize", prio="weight", default_w2=True))
         return out
 
     def scenario(self, ps, P, case):
@@ -72,7 +74,8 @@ class ObjectiveWiring(Contract):
         objs = []
         for i, ind in enumerate(targets):
             if i == 1 and case.get("default_w2"):
-                objs.append(ps.Objective(name="o2", target=ind, kind=kind))
+                # declared without a weight, through the indicator-objective classes (which have a default of their own)
+                objs.append((ps.ObjectiveMinimizeIndicator if case["dir"] == "min" else ps.ObjectiveMaximizeIndicator)(target=ind))
                 continue
             P.assume(P.int(f"w{i+1}") >= 1)
             objs.append(ps.Objective(name=f"o{i+1}", target=ind, weight=P.int(f"w{i+1}"), kind=kind))
